@@ -144,10 +144,11 @@ def wsToJds (week sec : Rat) : JD :=
   let fracSec := sec + 43200 - wd * 86400
   ⟨week * 7 + wd + jdGps0 - 1 / 2, fracSec / 86400⟩
 
-/-- `TimeGPSWeekSec._from_jds` (`none`: the ValueError before 1980-01-06) -/
+/-- `TimeGPSWeekSec._from_jds` (`none`: the ValueError before 1980-01-06); after the `fix:` commit the whole days are
+found as in `_jd_delta` (day part and small rest separately) -/
 def wsFromJds (j : JD) : Option WeekSec :=
   if j.jd1 + j.jd2 < jdGps0 then none else
-  let δ := j.jd1 - (((j.jd1 + j.jd2 - 1 / 2).floor : Rat) + 1 / 2)
+  let δ := jdDelta j
   let jdI := j.jd1 - δ
   let jdF := j.jd2 + δ
   let w : Rat := (((jdI - jdGps0) / 7).floor : Rat)
@@ -199,6 +200,19 @@ def dyToJds (tbl : List Row) (tol : Rat) (scale : Scale) (v : Rat) : JD :=
   let jd := yearStartJd1 yearInt + frac * year2days tbl tol yearInt scale
   let jd1 : Rat := (truncRat jd : Rat)
   ⟨jd1, jd - jd1⟩
+
+/-- `TimeDecimalYear._to_jds` with the refusal of `datetime(year_int, 1, 1)` (years 1 … 9999; `none`: ValueError) -/
+def dyToJdsG (tbl : List Row) (tol : Rat) (scale : Scale) (v : Rat) : Option JD :=
+  if 1 ≤ truncRat v ∧ truncRat v ≤ 9999 then some (dyToJds tbl tol scale v) else none
+
+/-- the year a decimal year is counted in: the year of the (microsecond-rounded) datetime of the epoch -/
+def dyYear (j : JD) : Int := (fieldsOf (dtFromJds j)).year
+
+/-- Gregorian leap year -/
+def isLeap (y : Int) : Bool := decide (y % 4 = 0 ∧ (y % 100 ≠ 0 ∨ y % 400 = 0))
+
+/-- calendar length of a year in days -/
+def yearLen (y : Int) : Int := daysFromCivil (y + 1) 1 1 - daysFromCivil y 1 1
 
 /-- `TimeDecimalYear._jd2dy` -/
 def dyFromJds (tbl : List Row) (tol : Rat) (scale : Scale) (j : JD) : Rat :=
